@@ -38,7 +38,6 @@ Definition e_undef_reference : Z := 19.        (* ErrUndefinedReference *)
 Definition e_dup_name : Z := 20.               (* ErrDuplicateGroupName *)
 Definition e_range : Z := 21.                  (* ErrCaptureGroupOutOfRange *)
 Definition e_missing_repeat_arg : Z := 22.     (* ErrMissingRepeatArgument *)
-Definition e_unrecognized_escape : Z := 23.    (* ErrUnrecognizedEscape *)
 
 (* ---- strconv.Itoa ---- *)
 Fixpoint uint_digits (u : Decimal.uint) : list Z :=
@@ -307,7 +306,7 @@ Definition assign_ordered (ecma : bool) (c : cstate) : res ptree :=
 Definition c_init : cstate := mkC 1 [0] 1 1 None [].
 Definition p_init (o : Z) : pstate := mkP (o_init o) false c_init.
 
-(* countCaptures.  [mco] = op.MaintainCaptureOrder || ECMAScript (parser.go:162), [ecma] = useOptionE():
+(* countCaptures.  [mco] = op.MaintainCaptureOrder || ECMAScript || RE2 (parser.go:162), [ecma] = useOptionE():
    the ECMAScript bit cannot change inside the pattern (scanOptions stops at 'e'), so it is read
    off the initial options once. *)
 Definition prescan (mco ecma : bool) (o : Z) (ts : list gtok) : res (ptree * list pmark) :=
@@ -366,9 +365,9 @@ Definition mstep (mco ecma : bool) (t : ptree) (st : mstate) (tok : gtok) : res 
         else if is_slot t n then Ok (st, IRef n)
         else if angled then Err e_undef_backref
         else if (n <=? 9) && negb ecma then Err e_undef_backref
-        else if negb ecma && (match itoa n with d :: _ => 56 <=? d | [] => false end)
-             then Err e_unrecognized_escape                        (* scanCharEscape: "\8", "\9" *)
-        else Ok (st, INone)                                        (* octal / literal escape *)
+        else Ok (st, INone)                                        (* octal / literal escape.  Not modelled:
+                                                                      a number >= 10 starting with 8 or 9, which
+                                                                      scanCharEscape rejects outside ECMAScript/RE2 *)
     | TBackName s =>                                               (* 1440-1456 *)
         if ecma && no_names t then Ok (st, INone)
         else if is_name t s then Ok (st, IRef (slot_from_name t s))
@@ -445,7 +444,7 @@ Definition main_pass (mco ecma : bool) (t : ptree) (o : Z) (ts : list gtok) : re
 (* syntax.Parse (parser.go:158-188) *)
 Definition parse (mco_flag : bool) (o : Z) (ts : list gtok) : res (ptree * list pmark * list item) :=
   let ecma := has o opt_e in
-  let mco := mco_flag || ecma in
+  let mco := mco_flag || ecma || has o opt_re2 in      (* parser.go:162 *)
   do (t, mks) <- prescan mco ecma o ts ;
   do its <- main_pass mco ecma t o ts ;
   Ok (t, mks, its).
